@@ -20,40 +20,47 @@ RECURSIVE DownI(_, _, _)
 DownI(p, l, b) == IF l = b THEN <<>> ELSE DownI(p, l, p[b]) \o <<b>>
 PathI(p, a, b) == LET u == UpI(p, a, b) IN u \o DownI(p, u[Len(u)], b)
 \* device-side expectation for the path: [kind, level, mode it must arrive in]
+\* au[i] \in {"no", "asks", "grants"}: the escalate into level i is not authenticated / asks for the password / is marked as
+\* authenticated in the definition but the device grants it without asking (the secret must then never be typed)
 RECURSIVE Steps(_, _, _)
 Steps(p, au, path) ==
   IF Len(path) < 2 THEN <<>>
   ELSE (IF p[path[1]] = path[2]
         THEN << [kind |-> "deesc", level |-> path[1], mode |-> path[1]] >>
         ELSE << [kind |-> "esc", level |-> path[2], mode |-> path[1]] >>
-             \o (IF au[path[2]] THEN << [kind |-> "secret", level |-> path[2], mode |-> path[1]] >> ELSE <<>>))
+             \o (IF au[path[2]] = "asks" THEN << [kind |-> "secret", level |-> path[2], mode |-> path[1]] >> ELSE <<>>))
        \o Steps(p, au, Tail(path))
 
-OpKinds == << "acquire", "command", "configs", "configs-at", "acquire", "interactive", "command", "acquire-unknown", "config" >>
+\* "configs-leave": config lines whose last one is the level's own de-escalate command - the device leaves the configuration
+\* level by itself, the driver's cached level is stale; the operation after it is a configs at the same level, which must find
+\* its way back (AcquirePriv reads the prompt, it does not trust the cache)
+OpKinds == << "acquire", "command", "configs", "configs-at", "acquire", "interactive", "command", "acquire-unknown", "config", "configs-leave" >>
 
-RECURSIVE RunOps(_, _, _, _, _, _, _)
+RECURSIVE RunOps(_, _, _, _, _, _, _, _)
 \* returns the sequence of per-operation expectations, threading the device mode
-RunOps(m, p, au, def, conf, mode, j) ==
-  IF j > 1 + Below(4, m, 40) THEN <<>>
-  ELSE LET kind == Pick(OpKinds, m, 50 + j)
+RunOps(m, p, au, def, conf, mode, j, left) ==
+  IF j > 1 + Below(4, m, 40) + (IF left THEN 1 ELSE 0) THEN <<>>
+  ELSE LET kind0 == Pick(OpKinds, m, 50 + j)
+           kind == IF left THEN "configs" ELSE IF kind0 = "configs-leave" /\ p[conf] = NONE THEN "configs" ELSE kind0
            nn   == Len(p)
            tgt  == CASE kind = "acquire" -> 1 + Below(nn, m, 60 + j)
                      [] kind = "configs-at" -> 1 + Below(nn, m, 60 + j)
                      [] kind \in {"command", "interactive"} -> def
-                     [] kind \in {"configs", "config"} -> conf
+                     [] kind \in {"configs", "config", "configs-leave"} -> conf
                      [] OTHER -> 0
            steps == IF tgt = 0 THEN <<>> ELSE Steps(p, au, PathI(p, mode, tgt))
            pay   == CASE kind \in {"command", "interactive"} -> << [kind |-> "line", level |-> tgt, mode |-> tgt] >>
                       [] kind \in {"configs", "configs-at", "config"} -> << [kind |-> "line", level |-> tgt, mode |-> tgt], [kind |-> "line", level |-> tgt, mode |-> tgt] >>
+                      [] kind = "configs-leave" -> << [kind |-> "line", level |-> tgt, mode |-> tgt], [kind |-> "deesc", level |-> tgt, mode |-> tgt] >>
                       [] OTHER -> <<>>
-           nmode == IF tgt = 0 THEN mode ELSE tgt
+           nmode == IF tgt = 0 THEN mode ELSE IF kind = "configs-leave" THEN p[tgt] ELSE tgt
        IN << [op |-> kind, target |-> tgt, class |-> IF tgt = 0 THEN "privilege" ELSE "ok",
-              steps |-> steps \o pay, final |-> nmode] >> \o RunOps(m, p, au, def, conf, nmode, j + 1)
+              steps |-> steps \o pay, final |-> nmode] >> \o RunOps(m, p, au, def, conf, nmode, j + 1, kind = "configs-leave")
 
 Scn(m) ==
   LET nn   == 2 + Below(3, m, 1)                                  \* 2..4 levels
       p    == [i \in 1..nn |-> IF i = 1 THEN NONE ELSE 1 + Below(i - 1, m, 10 + i)]
-      au   == [i \in 1..nn |-> i > 1 /\ Below(3, m, 20 + i) = 0]
+      au   == [i \in 1..nn |-> IF i > 1 /\ Below(3, m, 20 + i) = 0 THEN (IF Below(3, m, 30 + i) = 0 THEN "grants" ELSE "asks") ELSE "no"]
       def  == 1 + Below(nn, m, 2)
       conf == 1 + Below(nn, m, 3)
       \* sibling levels that show the SAME prompt (configuration flavours): only the driver's cached level tells them apart,
@@ -65,7 +72,7 @@ Scn(m) ==
       st0  == 1 + Below(nn, m, 4)
       st   == IF st0 = twin[1] \/ st0 = twin[2] THEN 1 ELSE st0
   IN [id |-> m, n |-> nn, parent |-> p, auth |-> au, def |-> def, conf |-> conf, start |-> st, twin |-> twin,
-      ops |-> RunOps(m, p, au, def, conf, st, 1)]
+      ops |-> RunOps(m, p, au, def, conf, st, 1, FALSE)]
 
 Init == n = 0
 Next == n < Count /\ n' = n + 1 /\ PrintT("SCN " \o ToJson(Scn(n)))
